@@ -4,11 +4,12 @@ EXTENDS NotifyXfrReqConc, TLC
 
 CONSTANTS GateClosed    \* TRUE: no funneler makes progress (the harness holds the walks / diff streams)
 
-Step(t) == \/ BAcquire(t) \/ FAcquire(t) \/ FDone(t) \/ BRecv(t) \/ BFail(t) \/ BDone(t)
-           \/ (~GateClosed /\ FSend(t))
+GSend(t) == ~GateClosed /\ FSend(t)
+GDrop(t) == ~GateClosed /\ Drop(t)
+Step(t) == BAcquire(t) \/ FAcquire(t) \/ FDone(t) \/ BRecv(t) \/ BFail(t) \/ BDone(t) \/ GSend(t)
 MCNext == \E t \in TS : \/ \E k \in Kinds : Start(t, k)
                         \/ Step(t)
-                        \/ (~GateClosed /\ Drop(t))
+                        \/ GDrop(t)
 MCSpec == CInit /\ [][MCNext]_cvars /\ \A t \in TS : WF_cvars(Step(t))
 
 C3_Progress == \A t \in TS : (kind[t] # "-") ~> (Ended(t) /\ (drop[t] \/ ok[t]))
